@@ -53,7 +53,7 @@ pub fn visit_parsed<V: Visitor>(v: &mut V, st: &mut Stats, inst: &str, s: &str, 
 
 fn visit_built_t<'a, T, V: Visitor>(v: &mut V, st: &mut Stats, h: &'a Hist, mk: &dyn Fn(&'a str) -> Option<T>, tp: &'static str, observe: bool) -> Option<Option<Fail>>
 where
-    T: PurlShape + Clone + Eq + Hash + Ord + Debug,
+    T: PurlShape + Clone + Eq + Hash + Ord + Debug + crate::exec::Reparse,
     T::Error: Debug,
 {
     let run = run_hist(h, mk)?;
